@@ -13,6 +13,9 @@ import (
 
 var embeddedCacheKey = "embedded_cache_store"
 
+// parseLockCacheKey is the cache store key of the mutex held while new schemas are parsed into it
+var parseLockCacheKey = "schema_parse_lock"
+
 func ParseTagSetting(str string, sep string) map[string]string {
 	settings := map[string]string{}
 	names := strings.Split(str, sep)
